@@ -73,7 +73,7 @@ CHECKS = {
     "C05": {
         "pkg": "c05", "level": "exploration",
         "manifest": {
-            "text": "generated KeyID values and texts judged by an independent re-statement of the consistency and required-member rules plus round-trip; the attribute grid (flags x touch x version x usage) is enumerated completely",
+            "text": "generated KeyID values and texts judged by an independent re-statement of the consistency and required-member rules plus round-trip; the attribute grid (flags x touch x version x usage) is enumerated completely; the same oracles applied from 2..16 goroutines at once (the codec is a pure function also under concurrent use)",
             "note": "sampling of an infinite input space; strings restricted to valid UTF-8; encoding/json trusted as JSON reference for the member-name walk",
             "technique": "property-based testing (rapid) + native coverage-guided fuzzing; oracle = independent predicate + round-trip + constructed-to-fail/valid texts",
         },
@@ -85,6 +85,7 @@ CHECKS = {
             R("TestC05Value", 20000, 200000),
             E("TestC05ValueGrid"),
             R("TestC05Text", 20000, 200000),
+            R("TestC05Concurrent", 60, 600, qs=2),
             F("FuzzC05Text", "60s"),
         ],
     },
@@ -123,12 +124,13 @@ CHECKS = {
     "C08": {
         "pkg": "c08", "level": "exploration",
         "manifest": {
-            "text": "model-based histories with a lock flag over a real shim agent; the keyring behind the lock-emulating proxy stays inspectable, so 'changes nothing' is checked on the underlying identities directly and on the in-memory table through the post-unlock view; a second sub-check lets 1..4 goroutines list / list signers / sign while another client cycles lock - unlock: every concurrent observation must be the complete unlocked view or the locked answer, never a part of the view",
+            "text": "model-based histories with a lock flag over a real shim agent; the keyring behind the lock-emulating proxy stays inspectable, so 'changes nothing' is checked on the underlying identities directly and on the in-memory table through the post-unlock view; a second sub-check lets 1..4 goroutines list / list signers / sign while another client cycles lock - unlock: every concurrent observation must be the complete unlocked view or the locked answer, never a part of the view; the same histories with an underlying agent that answers lock / unlock / list / sign only after seconds",
             "note": "Forward / Extension are outside the lock statement and are not judged while locked; the concurrent sub-check samples schedules",
             "technique": "stateful property-based testing (rapid) against a reference model + injected lock/unlock refusals + generated lock/unlock races with an all-or-nothing view oracle",
         },
         "assumptions": ["the proxy emulates ssh-agent lock semantics (empty list, failure for everything else, passphrase compare)"],
-        "subchecks": [R("TestC08Lock", 400, 2000, qs=2), R("TestC08LockRace", 40, 400, qs=2, ts=8)],
+        "subchecks": [R("TestC08Lock", 400, 2000, qs=2), R("TestC08LockRace", 40, 400, qs=2, ts=8),
+                      R("TestC08Slow", 4, 24, qs=8, ts=16, quick_extra={"timeout": 300})],
     },
     "C09": {
         "pkg": "c09", "level": "exploration",
@@ -156,7 +158,7 @@ CHECKS = {
     "C11": {
         "pkg": "c11", "level": "exploration", "race": True,
         "manifest": {
-            "text": "generated concurrent programs (2..16 goroutines, direct calls and served connections, both modes, purging inside the race window) run under the race detector; every request carries a unique tag so that crossed replies are visible; mutations follow per-goroutine life cycles of disjoint keys, which makes the set of sequential outcomes a single state that the final keyring and listing are compared with; small programs over SHARED keys (hardware-certificate registration racing with remove / remove-all) are judged by an exhaustive search for a sequential order that explains every caller's observation and the final state against a pure model of the two tables; fixed signers / extension / forward storms target the two places the property names; one request answered by the underlying agent only after seconds (touch / PIN prompt) with other clients queued behind it must not shift anybody's replies",
+            "text": "generated concurrent programs (2..16 goroutines, direct calls and served connections, both modes, purging inside the race window) run under the race detector; every request carries a unique tag so that crossed replies are visible; mutations follow per-goroutine life cycles of disjoint keys, which makes the set of sequential outcomes a single state that the final keyring and listing are compared with; small programs over SHARED keys (hardware-certificate registration racing with remove / remove-all) are judged by an exhaustive search for a sequential order that explains every caller's observation and the final state against a pure model of the two tables; fixed signers / extension / forward storms target the two places the property names; one request answered by the underlying agent only after seconds (touch / PIN prompt) with other clients queued behind it must not shift anybody's replies; Close called while another caller's request is outstanding at the underlying agent (the request precedes Close in every sequential order)",
             "note": "schedules are sampled, not enumerated; the race detector reports any unsynchronised pair that executes, independent of timing, which is why it is the main oracle; signing through Signer objects returned by Signers() is outside the listed operations and not generated",
             "technique": "generated concurrent programs (rapid) + Go race detector + tag matching + order-independent final-state oracle + sequential-explanation search against a reference model",
         },
@@ -164,6 +166,7 @@ CHECKS = {
         "subchecks": [
             E("TestC11SignersStorm", quick={"shards": 1, "timeout": 600}, thorough={"shards": 1, "timeout": 900}),
             E("TestC11SlowUpstream", quick={"shards": 1, "timeout": 600}, thorough={"shards": 1, "timeout": 900}),
+            E("TestC11CloseInFlight", quick={"shards": 1, "timeout": 600}, thorough={"shards": 1, "timeout": 900}),
             R("TestC11Concurrent", 40, 250, qs=2, quick_extra={"timeout": 600}, thorough_extra={"timeout": 1500}),
             R("TestC11Sequential", 150, 1500, qs=2, ts=8, quick_extra={"timeout": 600}, thorough_extra={"timeout": 1500}),
         ],
@@ -172,7 +175,7 @@ CHECKS = {
         "pkg": "c12", "level": "exploration",
         "manifest": {
             "text": "grammar-generated and coverage-guided byte streams served in-process over an in-memory connection; the harness parses the same stream independently and predicts, per frame, 'exactly one response of this kind' or 'answer or end with an error'; frames of length 0/1/2 are enumerated for every message code",
-            "note": "a total recording agent is served (mode A); the real server over shim+proxy is served with wait codes >= 40 only (mode B, response counting only); a frame cut off by the end of stream (in the length prefix or in the body) must end service with an error",
+            "note": "a total recording agent is served (mode A); the real server over shim+proxy is served with wait codes >= 40 only (mode B, response counting only), except in TestC12WaitFirstUse where wait frames for codes < 40 arrive together with the first request of their code on other connections of a fresh server and must be answered within 5 s of continued serving; a frame cut off by the end of stream (in the length prefix or in the body) must end service with an error",
             "technique": "property-based testing (rapid) + native fuzzing + enumeration of short frames; oracle = independent stream parser and per-frame response prediction",
         },
         "assumptions": ["golang.org/x/crypto/ssh/agent server produces the replies of standard requests", "allocation is measured with runtime.MemStats.TotalAlloc around the call (threshold 8 MiB)"],
@@ -183,13 +186,14 @@ CHECKS = {
             R("TestC12StreamReal", 300, 2000, ts=8),
             R("TestC12LocalSlots", 60, 600, ts=4),
             E("TestC12SlowHandler"),
+            R("TestC12WaitFirstUse", 15, 100, qs=8, ts=16),
             F("FuzzC12Stream", "90s"),
         ],
     },
     "C13": {
         "pkg": "c13", "level": "exploration",
         "manifest": {
-            "text": "generated operation sequences through the real client and the real ServeAgent against a recording agent with scripted results (argument and result equality, byte-for-byte), plus the real server with a fake PIV tool whose output and exit status are generated",
+            "text": "generated operation sequences through the real client and the real ServeAgent against a recording agent with scripted results (argument and result equality, byte-for-byte), plus the real server with a fake PIV tool whose output and exit status are generated, plus a served agent that answers one call of each operation only after 6.5..35 s (result and stream position must be unaffected)",
             "note": "the three in-band status ambiguities (error text SUCCESS for add-hardware-certificate / wait; empty error text for the slot listing) are listed known findings: excluded from the generator by construction, probed deterministically on every run",
             "technique": "property-based testing (rapid): scripted recording double + differential argument/result comparison; generated tool output with a reference parser",
         },
@@ -198,18 +202,20 @@ CHECKS = {
             E("TestC13KnownFindings"),
             R("TestC13Client", 1500, 8000, quick_extra={"timeout": 120}, thorough_extra={"timeout": 900}),
             R("TestC13Tool", 150, 500),
+            E("TestC13Slow", thorough={"shards": 1, "timeout": 600}),
         ],
     },
     "C14": {
         "pkg": "c14", "level": "exploration",
         "manifest": {
-            "text": "generated (command, LOGNAME, SSH_CONNECTION, argv) tuples; every accepted result is recomputed independently from the inputs (reference JSON decode / legacy tokeniser, net/netip, token arithmetic, version parser) and inputs valid by construction must be accepted",
+            "text": "generated (command, LOGNAME, SSH_CONNECTION, argv) tuples; every accepted result is recomputed independently from the inputs (reference JSON decode / legacy tokeniser, net/netip, token arithmetic, version parser) and inputs valid by construction must be accepted; bursts of thousands of evaluations must not repeat transaction ids",
             "note": "sampling; transaction-id freshness is checked between two evaluations of each input (collision probability 2^-40 per case is accepted as noise-free in practice); unpredictability is not testable",
             "technique": "property-based testing (rapid) + native fuzzing; oracle = independent recomputation + liveness of valid-by-construction inputs",
         },
         "assumptions": ["net/netip is the reference for 'syntactically valid address without zone'", "wire names of the request message are the client contract"],
         "subchecks": [
             R("TestC14Params", 20000, 200000),
+            E("TestC14Fresh"),
             F("FuzzC14Command", "60s"),
         ],
     },
@@ -253,7 +259,7 @@ CHECKS = {
     "C17": {
         "pkg": "c17", "level": "fault_enumeration",
         "manifest": {
-            "text": "real crypki.NewSigner against harness-run gRPC-over-TLS Signing servers on loopback aliases sharing one port; every success / failure vector over lists of length 0..3 is enumerated, longer lists, reply shapes, status codes and request contents are generated; the back-off is checked as a pure function over its whole parameter space with weight on the overflow region",
+            "text": "real crypki.NewSigner against harness-run gRPC-over-TLS Signing servers on loopback aliases sharing one port; every success / failure vector over lists of length 0..3 is enumerated, longer lists, reply shapes, status codes and request contents are generated; the back-off is checked as a pure function over its whole parameter space with weight on the overflow region; lists in which an address occurs several times, judged from the calls the endpoints recorded (every entry is a try of its own)",
             "note": "retries = 1 so that a case costs milliseconds (the retry interceptor itself is third-party); one failure kind per endpoint; back-off evaluated 3 times per case because its jitter is random",
             "technique": "fault-vector enumeration + property-based testing (rapid); oracle = call records of the fake servers (order, proto.Equal) and a closed-form bound",
         },
@@ -263,6 +269,7 @@ CHECKS = {
             E("TestC17Deadline"),
             E("TestC17ManyCalls"),
             R("TestC17Failover", 100, 600, qs=2),
+            R("TestC17Repeated", 60, 400, qs=2),
             R("TestC17Backoff", 50000, 1000000),
         ],
     },
@@ -283,7 +290,7 @@ CHECKS = {
     "C19": {
         "pkg": "c19", "level": "exploration",
         "manifest": {
-            "text": "the complete attribute grid named by the quantifier (flags x touch policy x critical option x version) is enumerated and compared with an independently written decision table; random decorations, near-miss KeyIDs and principal lists are generated around it",
+            "text": "the complete attribute grid named by the quantifier (flags x touch policy x critical option x version) is enumerated and compared with an independently written decision table; random decorations, near-miss KeyIDs and principal lists are generated around it; the shim agent's listing (the property's second observation point) judged by the shim reference model under every listing order",
             "note": "grid exhaustive for the listed touch-policy representatives; strings sampled; type constants compared through the exported names",
             "technique": "property-based testing (rapid) + exhaustive enumeration of the finite core; oracle = reference decision table",
         },
@@ -292,6 +299,7 @@ CHECKS = {
             E("TestC19Grid"),
             R("TestC19Random", 20000, 200000),
             R("TestC19PrincipalsAllTypes", 5000, 50000, ts=4),
+            R("TestC19Listing", 300, 3000, ts=8),
         ],
     },
     "C20": {
